@@ -821,7 +821,12 @@ class FillNode(BaseNode):
         #   {'forloop': {'parentloop': {...}, 'counter0': 2, 'counter': 3, ... }, 'outer': 2},
         #   {'forloop': {'parentloop': {...}, 'counter0': 1, 'counter': 2, ... }, 'slot_name': 'slot2'}
         # ]
-        for layer in context.dicts:
+        #
+        # NOTE: Same as above, we capture only the loops WITHIN `{% component %} ... {% endcomponent %}`.
+        # Loops around the `{% component %}` tag are already part of the context that the fill
+        # is rendered with. Capturing them again would put their variables above variables
+        # that were defined later (e.g. `{% for x in xs %}{% with x=1 %}{% component %}..`).
+        for layer in context.dicts[index_of_new_layers:]:
             if "forloop" in layer:
                 layer = layer.copy()
                 layer["forloop"] = layer["forloop"].copy()
